@@ -817,6 +817,16 @@ class Interp:
                 return obj[n - 1]
             self.throw("TypeError", "list indices must be integers or slices")
         if isinstance(obj, dict):
+            if isinstance(idx, SStr) and obj and all(isinstance(k, str) for k in obj) and \
+                    all(isinstance(v, int) and not isinstance(v, bool) for v in obj.values()):
+                # table of integers keyed by strings: one membership decision, value as an if-then-else term
+                member = z3.Or(*[idx.z == z3.StringVal(k) for k in obj])
+                if not self.decide(member):
+                    self.throw("KeyError", idx)
+                term = None
+                for k, v in obj.items():
+                    term = z3.IntVal(v) if term is None else z3.If(idx.z == z3.StringVal(k), z3.IntVal(v), term)
+                return SInt(term)
             if isinstance(idx, Sym):
                 for k in obj:
                     t = self.eq_term(idx, k)
@@ -1080,15 +1090,18 @@ class Interp:
             if static_failed is not None or isinstance(v, (set, frozenset, dict, list)):
                 # a module-level container may be filled / mutated by later module-level statements
                 # (registration calls, updates): the value the running code sees is the one of the
-                # imported module.  Taken from there when it is plain data; otherwise the defining
-                # expression stands (and a failed static evaluation stays undecided).
-                ok, rv = _runtime_global(mod.rel, name)
-                if ok:
+                # imported module.  Taken from there when it converts (plain data and classes of the
+                # repository); a container that does not convert but visibly differs from its defining
+                # expression makes the path undecided instead of using a stale value.
+                state, rv = self._runtime_global(mod, name)
+                if state == "ok":
                     if static_failed is None and not _same_plain(v, rv):
                         self.ex.dropped.add(f"global {mod.rel}:{name} read from the imported module (mutated after its definition)")
                     v = rv
                 elif static_failed is not None:
                     raise static_failed
+                elif state == "differs":
+                    raise Undecided(f"module-level container {mod.rel}:{name} is mutated after its definition and holds values that are not modelled")
             self.modcache[key] = v
             return v
         if name in mod.imports:
@@ -1099,6 +1112,54 @@ class Interp:
             self.modcache[key] = v
             return v
         return self.builtin_name(name)
+
+    def _runtime_global(self, mod, name):
+        """('ok', interp value) | ('differs', None) | ('unknown', None) for a module-level container of the
+        imported repository module"""
+        import importlib
+        dotted = mod.rel[:-3].replace("/", ".")
+        if dotted.endswith(".__init__"):
+            dotted = dotted[:-9]
+        if dotted not in _RT_MODULES:
+            try:
+                _RT_MODULES[dotted] = importlib.import_module(dotted)
+            except BaseException:  # noqa: BLE001 - not importable here: the static value stands
+                _RT_MODULES[dotted] = None
+        m = _RT_MODULES[dotted]
+        if m is None or not hasattr(m, name):
+            return "unknown", None
+        rv = getattr(m, name)
+
+        class Fail(Exception):
+            pass
+
+        def conv(v, depth=0):
+            if depth > 6:
+                raise Fail()
+            if v is None or isinstance(v, (bool, int, float, str, bytes)):
+                return v
+            if isinstance(v, type) and getattr(v, "__module__", None) == dotted and v.__name__ in mod.defs:
+                return self.module_global(mod, v.__name__)        # the same ClassRef the code's own names resolve to
+            if isinstance(v, tuple):
+                return tuple(conv(x, depth + 1) for x in v)
+            if isinstance(v, list):
+                return [conv(x, depth + 1) for x in v]
+            if isinstance(v, (set, frozenset)):
+                return type(v)(conv(x, depth + 1) for x in v)
+            if isinstance(v, dict):
+                return {conv(k, depth + 1): conv(x, depth + 1) for k, x in v.items()}
+            raise Fail()
+        try:
+            return "ok", conv(rv)
+        except Fail:
+            pass
+        try:
+            static = self.eval_in_module(mod, mod.assigns[name])
+            if hasattr(rv, "__len__") and hasattr(static, "__len__") and len(rv) != len(static):
+                return "differs", None
+        except Exception:  # noqa: BLE001
+            pass
+        return "unknown", None
 
     def repo_exc_class(self, mod, node):
         mro = [node.name]
